@@ -34,6 +34,7 @@ var c20Mutations = []string{
 	"ha_nodes_deleted", "last_switch_garbage", "optimization_unknown_host", "ha_node_config_garbage", "cascade_config_garbage", "move_master_to_cascade",
 	"recovery_mark_master_with_stuck_commits", "resetup_status_garbage",
 	"daemons_restarted_in_maintenance_during_outage", "daemons_restarted_in_maintenance_during_outage_then_switch",
+	"daemons_started_during_outage_then_second_outage",
 }
 
 var c20States = []string{"steady", "master_down", "replica_down", "zk_lost_on_manager", "zk_outage", "maintenance", "sql_errors", "sql_hangs"}
@@ -460,6 +461,27 @@ func c20Mutate(sc *Scen, sp c20Spec, hosts []string) {
 		if sp.Mutation == "daemons_restarted_in_maintenance_during_outage_then_switch" {
 			fileSwitch(sc, "", hosts[1], "manual", "switchover", "operator")
 		}
+	case "daemons_started_during_outage_then_second_outage":
+		// every daemon starts while the coordination service is away (its first tick waits for a session), works for a
+		// while, loses the service for longer than the session timeout, and gets it back
+		s.ZKOutage(true)
+		var ins []*Inst
+		for _, h := range s.AllHosts() {
+			ins = append(ins, s.Kill(h))
+		}
+		for i, in := range ins {
+			<-in.Done()
+			s.StartInst(s.AllHosts()[i], time.Duration(i)*200*time.Millisecond)
+		}
+		time.Sleep(18 * time.Second)
+		s.ZKOutage(false)
+		time.Sleep(25 * time.Second)
+		for k := 0; k < 3; k++ {
+			s.ZKOutage(true)
+			time.Sleep(time.Duration(8+4*k) * time.Second)
+			s.ZKOutage(false)
+			time.Sleep(20 * time.Second)
+		}
 	case "resetup_status_garbage":
 		put("resetup_status/"+hosts[1], `"never"`)
 		s.W.Manual(hosts[1], "offline", func(x *world.Server) { x.Offline = true })
@@ -481,5 +503,5 @@ func init() {
 			}
 			return f
 		},
-		Rule: "families: (dangling) every coordination-tree mutation of a list of 31 (unregistered master / replica / stream_from, unknown hosts, malformed or empty values of every key mysync reads) applied to a running cluster in one of 8 daemon/server states, then 300 iterations; (soak) random crashes, isolations, coordination cuts and outages, daemon kills and switch requests for 40-80 steps; (switch-wreck) the C06/C07/C09 generators' half-done switchovers with dying managers and failing statements and daemon restarts during maintenance and coordination outages; (first-use) servers becoming reachable just before coinciding ticks with delayed version/uuid queries; (loops) one process holds the manager lock while its own host is marked for recovery (as master, as replica with repeated marks, after failing over its own host, with stuck commits), so that all of its loops are in their non-trivial branches at once; a share of all units and all first-use and loops units run under the race detector; oracles: child death with a mysync frame = crash, goroutine/connection counts over the run + goroutines alive at bubble tear-down = leak, race reports de-duplicated by outermost mysync functions; distinct by (family, mutation, state, shape)"})
+		Rule: "families: (dangling) every coordination-tree mutation or history of a list of 34 (unregistered master / replica / stream_from, unknown hosts, malformed or empty values of every key mysync reads) applied to a running cluster in one of 8 daemon/server states, then 300 iterations; (soak) random crashes, isolations, coordination cuts and outages, daemon kills and switch requests for 40-80 steps; (switch-wreck) the C06/C07/C09 generators' half-done switchovers with dying managers and failing statements and daemon restarts during maintenance and coordination outages; (first-use) servers becoming reachable just before coinciding ticks with delayed version/uuid queries; (loops) one process holds the manager lock while its own host is marked for recovery (as master, as replica with repeated marks, after failing over its own host, with stuck commits), so that all of its loops are in their non-trivial branches at once; a share of all units and all first-use and loops units run under the race detector; oracles: child death with a mysync frame = crash, goroutine/connection counts over the run + goroutines alive at bubble tear-down = leak, race reports de-duplicated by outermost mysync functions; distinct by (family, mutation, state, shape)"})
 }
